@@ -14,3 +14,5 @@ func TestC11(t *testing.T)     { RunProp(t, propC11) }
 func TestC14(t *testing.T)     { RunProp(t, propC14) }
 func TestC14Enum(t *testing.T) { RunEnum(t, propC14) }
 func TestC15(t *testing.T)     { RunProp(t, propC15) }
+func TestC12(t *testing.T)     { RunProp(t, propC12) }
+func TestC12Enum(t *testing.T) { RunEnum(t, propC12) }
